@@ -102,6 +102,19 @@ class DstLocalBackend(LocalBackend):
             if lv is not None and lv > int(result[RESOURCE_ATTR]):
                 self.dst_sink.write_ckpt(trial_id, int(result[RESOURCE_ATTR]))
 
+    # F12 slow reads: reading a file or polling a process takes (virtual) time, the jobs keep running meanwhile
+    def stdout(self, trial_id):
+        lat = getattr(self, "dst_latency", None)
+        if lat is not None:
+            lat.maybe("io", p_key="p_io")
+        return super().stdout(trial_id)
+
+    def _read_status(self, trial_id):
+        lat = getattr(self, "dst_latency", None)
+        if lat is not None:
+            lat.maybe("io", p_key="p_io")
+        return super()._read_status(trial_id)
+
     def copy_checkpoint(self, src_trial_id, tgt_trial_id):
         self.dst_sim.log("ck.copy", src=src_trial_id, tgt=tgt_trial_id,
                          src_exists=self.checkpoint_trial_path(src_trial_id).exists())
@@ -121,7 +134,7 @@ class DstLocalBackend(LocalBackend):
             parsed, emitted = {}, {}
             for t in rec.get("trials", []):
                 try:
-                    parsed[int(t)] = len(retrieve(log_lines=self.stdout(trial_id=t)))
+                    parsed[int(t)] = len(retrieve(log_lines=LocalBackend.stdout(self, trial_id=t)))
                 except Exception as e:
                     parsed[int(t)] = "exc:%s" % type(e).__name__
                 emitted[int(t)] = sum(r.n_reports for r in self.dst_runs.get(t, []))
